@@ -85,8 +85,9 @@ Definition enc_bytes (l : list N) : N := fold_left (fun acc b => (acc * 257 + (b
 Definition t_mh (l : list N) : N := (two64N + 8 * enc_bytes l)%N.
 Definition t_ptr_sym (i : N) : N := (two64N + 8 * i + 1)%N.
 Definition t_ptr_obj (i : N) : N := (two64N + 8 * i + 2)%N.
+Definition t_host (g : N) : N := (two64N + 8 * g + 4)%N.
 Definition t_hash : jsval -> N :=
-  goja_hash (two64N + 3) (two64N + 11) (two64N + 19) (two64N + 27) t_mh t_ptr_sym t_ptr_obj.
+  goja_hash (two64N + 3) (two64N + 11) (two64N + 19) (two64N + 27) t_mh t_ptr_sym t_ptr_obj t_host.
 
 (* numbers and strings handed out by the runtime must satisfy the representation invariant *)
 Definition repr_ok (v : jsval) : bool :=
